@@ -56,6 +56,10 @@ def check_sweep(case, ctx):
     with ctx.sut("C16/simulate"):
         simulate(case, objs)
     ul = objs["ul"]
+    if "variance" in dict(ul.named_buffers()) and case["sim_seed"] % 2 == 0:
+        # a calm market: variances far below their usual level (any guard that "repairs" small values in place would show)
+        ul.register_buffer("variance", ul.get_buffer("variance") * 1e-3)
+        ctx.cls("tiny-variance")
     instruments = [ul]
     Tn = ul.spot.shape[1]
     dtype = ul.spot.dtype
